@@ -28,12 +28,18 @@ theorem parse_write_record (cv : Conv) (fmt : Bytes → Bytes) (flush split : Bo
     parseRecord cv items (writtenRecordText fmt flush split r) = some (r.map (·.map (normP fmt))) :=
   OpmVerif.DeckWrite.parse_write_record cv fmt flush split items r hc hlen htrail hat
 
-/-- `flush` is what `DeckOutput::end_record` does with defaults still pending, as the
-translator finds it in DeckOutput.cpp on this run (`outFlushPendingDefaults`).  Before fix
-452487d0e they were dropped (`false`), and `htrail` excluded the records for which that
-loses information: an item of size ALL that ends in defaulted values.  Since the fix they
-are written whenever the record holds an explicit value (`true`): nothing is dropped from
-such a record and `htrail` holds for it. -/
+/-- `flush`: are the defaults still pending at the end of the record written as a final `n*`
+(when the record holds an explicit value) or dropped.  The theorems hold for both values.
+What the code does is read off DeckOutput.cpp / DeckItem.cpp on every run
+(`Gen.RawConsts.outFlushShape`): the original code dropped them (`false`; `htrail` then
+excludes the records for which that loses information: an item of size ALL ending in
+defaulted values); 452487d0e wrote them in `end_record` (`true`: nothing is dropped once the
+record holds an explicit value — this theorem); since 14c7867b0 they are written only behind
+an item holding several values, i.e. `flush = lastMulti r` (`flushOf`,
+`writer_state_machine_is_the_model`): records of single-valued items drop their trailing
+defaults as in the original (harmless: `htrail`'s second disjunct), an item of size ALL with
+several values keeps them — and an item of size ALL holding exactly ONE value, defaulted,
+behind explicit values is still dropped (`WLIST '*L' NEW 1* /`: finding, see design.d/C19.md). -/
 theorem no_restriction_when_pending_defaults_are_written (flat : Vals) (h : ∃ p ∈ flat, p.2 = .deck) :
     pend true false 0 flat = 0 :=
   pend_flush flat h 0
@@ -59,13 +65,17 @@ theorem output_format_is_the_codes :
   OpmVerif.Lex.output_format_eq
 
 /-- The literal mirror of the `DeckOutput` state machine (`default_count`, `row_count`,
-`write_sep`, `stash_default`, `write<T>`, `start_record`, `end_record` — the model that is
-compared byte for byte with `operator<<(std::ostream&, const Deck&)`, TITLE and state
-carried between keywords included) writes, for every record, exactly the bytes of the
-two-stage writer the theorems above are about. -/
-theorem writer_state_machine_is_the_model (fmt : Bytes → Bytes) (flush split : Bool) (r : List Vals) :
-    (writeRecordM fmt flush split r).1 = writeRecord fmt flush split r :=
-  writeRecordM_eq fmt flush split r
+`write_sep`, `stash_default`, `write<T>`, `flush_defaults`, `start_record`, `end_record` — the
+model that is compared byte for byte with `operator<<(std::ostream&, const Deck&)`, TITLE and
+state carried between keywords included) writes, for every record, exactly the bytes of the
+two-stage writer the theorems above are about — for the three shapes of the code the
+translator knows (`shape`: 0 original, 1 = 452487d0e, 2 = 14c7867b0), with `flush = flushOf
+shape r`; for the per-item flush of shape 2 only the last item of the record may hold several
+values (`MultiOnlyLast`: true of every record `ParserRecord::parse` returns). -/
+theorem writer_state_machine_is_the_model (fmt : Bytes → Bytes) (shape : Nat) (split : Bool) (r : List Vals)
+    (h : shape ≤ 1 ∨ MultiOnlyLast r) :
+    (writeRecordM fmt shape split r).1 = writeRecord fmt (flushOf shape r) split r :=
+  writeRecordM_eq fmt shape split r h
 
 /-- `int_print_parse`: the decimal rendering of every `int` parses back to it. -/
 theorem int_print_parse (i : Int) (hlo : -2147483648 ≤ i) (hhi : i ≤ 2147483647) :
@@ -135,7 +145,7 @@ example : ∀ t, idFmt (idFmt t) = idFmt t := fun _ => rfl
 
 /-- the writer's state leaks into a TITLE keyword (the model mirrors the code as it is):
 two defaults pending after the EQLDIMS-like record reappear as `2*` in the title. -/
-example : writeDeckM idFmt false ⟨0, 0⟩
+example : writeDeckM idFmt 0 ⟨0, 0⟩
     [⟨b "EQLDIMS", false, false, [[[(.int 2, .deck)], [(.int 5, .dflt)], [(.int 7, .dflt)]]]⟩,
      ⟨b "TITLE", false, false, [[[(.str (b "abc"), .deck)]]]⟩] =
     b "EQLDIMS\n 2 /\nTITLE\n   2* 'abc'\n" := by decide +kernel
@@ -150,6 +160,26 @@ example : parseItems OpmVerif.DeckIO.conv [⟨.int, true, some (.int 0)⟩]
 example : parseItems OpmVerif.DeckIO.conv [⟨.int, true, some (.int 0)⟩]
     (emitToks idFmt true false 0 [(.int 5, .deck), (.int 0, .dflt), (.int 0, .dflt)]) =
       some [[(.int 5, .deck), (.int 0, .dflt), (.int 0, .dflt)]] := by decide +kernel
+
+/-- the code as it is now (shape 2, 14c7867b0): trailing defaults of single-valued items are
+dropped as in the original code, those of an item holding several values are written. -/
+example : (writeRecordM idFmt 2 false demoRecord).1 = b " 'P 1/*' 3* -12 /\n" ∧
+    (writeRecordM idFmt 1 false demoRecord).1 = b " 'P 1/*' 3* -12 2* /\n" ∧
+    (writeRecordM idFmt 2 false [[(.int 1, .deck), (.int 2, .deck), (.int 0, .dflt), (.int 0, .dflt)]]).1 = b " 1 2 2* /\n" ∧
+    flushOf 2 demoRecord = false ∧ MultiOnlyLast demoRecord := by decide +kernel
+
+/-- what is still dropped (finding, real code: `WLIST\n '*L' NEW 1* /\n/`): an item of size ALL
+holding exactly ONE value, defaulted, behind explicit values — `data_size() > 1` does not see
+it; it comes back empty.  `htrail` fails for this record (model and code agree). -/
+example : (writeRecordM idFmt 2 false [[(.str (b "*L"), .deck)], [(.str (b "NEW"), .deck)], [(.dummy, .empty)]]).1 =
+      b " '*L' 'NEW' /\n" ∧
+    parseItems OpmVerif.DeckIO.conv [⟨.string, false, none⟩, ⟨.string, false, none⟩, ⟨.string, true, none⟩]
+      (emitToks idFmt (flushOf 2 [[(.str (b "*L"), .deck)], [(.str (b "NEW"), .deck)], [(.dummy, .empty)]]) false 0
+        [(.str (b "*L"), .deck), (.str (b "NEW"), .deck), (.dummy, .empty)]) =
+      some [[(.str (b "*L"), .deck)], [(.str (b "NEW"), .deck)], []] ∧
+    ¬ (pend (flushOf 2 [[(.str (b "*L"), .deck)], [(.str (b "NEW"), .deck)], [(.dummy, .empty)]]) false 0
+        [(.str (b "*L"), .deck), (.str (b "NEW"), .deck), (.dummy, .empty)] = 0 ∨
+       3 ≤ singlePrefix [⟨.string, false, none⟩, ⟨.string, false, none⟩, ⟨.string, true, none⟩]) := by decide +kernel
 
 /-! ### keyword level -/
 
@@ -212,17 +242,17 @@ splitting, the keyword assembly state machine, the tokeniser and `ParserKeyword:
 come back as exactly the records written, with nothing left over.  `RunOk` is the size-class
 condition on the written records (theorems `size_class_*` below), `BodyOk` the condition on
 the tokens (safe inside a line, no line mistaken for the next keyword). -/
-theorem parse_write_keyword (cv : Conv) (fmt : Bytes → Bytes) (flush split closing : Bool) (recog : Bytes → Bool)
+theorem parse_write_keyword (cv : Conv) (fmt : Bytes → Bytes) (fl : List Vals → Bool) (split closing : Bool) (recog : Bytes → Bool)
     (k0 : Kw) (hk0 : k0.records = []) (hnf : k0.finished = false) (schemas : List (List Item)) (alt : Bool)
     (rs : List (List Vals)) (hne : rs ≠ [] ∨ closing = true)
-    (hrun : RunOk k0 (rs.map fun r => emitToks fmt flush false 0 r.flatten) closing)
-    (hbody : BodyOk recog k0.raw split closing (rs.map fun r => emitToks fmt flush false 0 r.flatten))
+    (hrun : RunOk k0 (rs.map fun r => emitToks fmt (fl r) false 0 r.flatten) closing)
+    (hbody : BodyOk recog k0.raw split closing (rs.map fun r => emitToks fmt (fl r) false 0 r.flatten))
     (hrec : ∀ j r, rs[j]? = some r → ∃ items, schemaOf schemas alt j = some items ∧
       Conf cv fmt items r ∧ r.flatten.length ≤ 2147483647 ∧
-      (pend flush false 0 r.flatten = 0 ∨ r.flatten.length ≤ singlePrefix items)) :
-    parseKeywordText cv recog k0 schemas alt false (bodyText fmt flush split closing rs) =
+      (pend (fl r) false 0 r.flatten = 0 ∨ r.flatten.length ≤ singlePrefix items)) :
+    parseKeywordText cv recog k0 schemas alt false (bodyText fmt fl split closing rs) =
       some (rs.map (·.map (·.map (normP fmt))), []) :=
-  parse_write_keyword_text cv fmt flush split closing recog k0 hk0 hnf schemas alt rs hne hrun hbody hrec
+  parse_write_keyword_text cv fmt fl split closing recog k0 hk0 hnf schemas alt rs hne hrun hbody hrec
 
 /-- slash-terminated keywords (WELSPECS, COMPDAT; raw strings: UDQ, ACTIONX): the run is fine
 iff every record emits a token — a record of defaults only is written as a bare `/` and
@@ -258,33 +288,33 @@ theorem size_class_double (tss : List (List Bytes)) (k : Kw) (hk : IsDbl k) (h :
 
 /-- double-record keywords: the empty `DeckRecord` that closes a block comes back as such,
 and the record numbering restarts behind it. -/
-theorem parse_write_keyword_double_record (cv : Conv) (fmt : Bytes → Bytes) (flush split : Bool) (recog : Bytes → Bool)
+theorem parse_write_keyword_double_record (cv : Conv) (fmt : Bytes → Bytes) (fl : List Vals → Bool) (split : Bool) (recog : Bytes → Bool)
     (k0 : Kw) (hk0 : k0.records = []) (schemas : List (List Item)) (alt : Bool) (rs : List (List Vals)) (R : Bytes)
-    (hrun : RunOk k0 (rs.map fun r => emitToks fmt flush false 0 r.flatten) true)
-    (hbody : BodyOk recog k0.raw split true (rs.map fun r => emitToks fmt flush false 0 r.flatten))
-    (hrec : DblConf (fun r => emitToks fmt flush false 0 r.flatten)
+    (hrun : RunOk k0 (rs.map fun r => emitToks fmt (fl r) false 0 r.flatten) true)
+    (hbody : BodyOk recog k0.raw split true (rs.map fun r => emitToks fmt (fl r) false 0 r.flatten))
+    (hrec : DblConf (fun r => emitToks fmt (fl r) false 0 r.flatten)
       (fun j r => ∃ items, schemaOf schemas alt j = some items ∧ Conf cv fmt items r ∧ r.flatten.length ≤ 2147483647 ∧
-        (pend flush false 0 r.flatten = 0 ∨ r.flatten.length ≤ singlePrefix items)) 0 rs) :
-    ∃ kf, feedLines recog k0 [] [] (splitLines (fastClean (bodyText fmt flush split true rs ++ R))) =
+        (pend (fl r) false 0 r.flatten = 0 ∨ r.flatten.length ≤ singlePrefix items)) 0 rs) :
+    ∃ kf, feedLines recog k0 [] [] (splitLines (fastClean (bodyText fmt fl split true rs ++ R))) =
         some (kf, splitLines (fastClean R)) ∧ kf.finished = true ∧
       parseRecordsDouble cv schemas alt 0 kf.records = some (rs.map (·.map (·.map (normP fmt)))) :=
-  parse_write_keyword_double cv fmt flush split recog k0 hk0 schemas alt rs R hrun hbody hrec
+  parse_write_keyword_double cv fmt fl split recog k0 hk0 schemas alt rs R hrun hbody hrec
 
 /-- keywords of unknown size (VFPPROD, …; written without a closing `/`): the written records
 are assembled into exactly those records; the keyword ends at the end of the input or at the
 line of the next recognised keyword, which stays in the input. -/
-theorem assemble_written_unknown_size (fmt : Bytes → Bytes) (flush split : Bool) (recog : Bytes → Bool) (k0 : Kw)
+theorem assemble_written_unknown_size (fmt : Bytes → Bytes) (fl : List Vals → Bool) (split : Bool) (recog : Bytes → Bool) (k0 : Kw)
     (hk : IsUnknown k0) (rs : List (List Vals)) (hne : rs ≠ [])
-    (hemit : ∀ r ∈ rs, emitToks fmt flush false 0 r.flatten ≠ [])
-    (hbody : BodyOk recog k0.raw split false (rs.map fun r => emitToks fmt flush false 0 r.flatten))
+    (hemit : ∀ r ∈ rs, emitToks fmt (fl r) false 0 r.flatten ≠ [])
+    (hbody : BodyOk recog k0.raw split false (rs.map fun r => emitToks fmt (fl r) false 0 r.flatten))
     (R : Bytes) (next : Bytes) (rest : List Bytes)
     (hR : splitLines (fastClean R) = [] ∨ splitLines (fastClean R) = [[]] ∨
       (splitLines (fastClean R) = next :: rest ∧ next ≠ eofMark ∧ next.isEmpty = false ∧
         recog (makeDeckName next) = true)) :
-    ∃ kf, feedLines recog k0 [] [] (splitLines (fastClean (bodyText fmt flush split false rs ++ R))) =
+    ∃ kf, feedLines recog k0 [] [] (splitLines (fastClean (bodyText fmt fl split false rs ++ R))) =
         some (kf, if splitLines (fastClean R) = [[]] then [] else splitLines (fastClean R)) ∧ kf.finished = true ∧
-      kf.records = k0.records ++ rs.map fun r => emitToks fmt flush false 0 r.flatten :=
-  assemble_written_unknown fmt flush split recog k0 hk rs hne hemit hbody R next rest hR
+      kf.records = k0.records ++ rs.map fun r => emitToks fmt (fl r) false 0 r.flatten :=
+  assemble_written_unknown fmt fl split recog k0 hk rs hne hemit hbody R next rest hR
 
 /-- the line split of data keywords: a written record, with or without the split, with or
 without tokens, cleans to the lines of its chunks (`recLines`); the text behind it is cleaned
@@ -295,12 +325,12 @@ theorem written_record_lines (split : Bool) (ts : List Bytes) (h : ∀ t ∈ ts,
 
 /-- TITLE: `TITLE\n  <entries>\n` as `write_TITLE` writes it is read back — the line after
 TITLE is the record whatever it holds — from any keyword boundary, in front of any text. -/
-theorem parse_write_title (cv : Conv) (fmt : Bytes → Bytes) (flush : Bool) (tbl : Table) (recog : Bytes → Bool)
+theorem parse_write_title (cv : Conv) (fmt : Bytes → Bytes) (fl : List Vals → Bool) (tbl : Table) (recog : Bytes → Bool)
     (files : List (Bytes × Bytes) → Bytes → Option Bytes) (fuel : Nat) (al : List (Bytes × Bytes))
-    (deck : DeckT) (lead : Bytes) (r : List Vals) (R : Bytes) (h : TitleConf cv fmt flush tbl deck lead r) :
+    (deck : DeckT) (lead : Bytes) (r : List Vals) (R : Bytes) (h : TitleConf cv fmt fl tbl deck lead r) :
     parseLoop cv tbl recog files (fuel + 1) al deck (splitLines (fastClean (titleText fmt lead r ++ R))) =
       parseLoop cv tbl recog files fuel al (deck ++ [⟨nameTITLE, normRecords fmt [r]⟩]) (splitLines (fastClean R)) :=
-  parseLoop_written_title cv fmt flush tbl recog files fuel al deck lead r R h
+  parseLoop_written_title cv fmt fl tbl recog files fuel al deck lead r R h
 
 /-- **`parse_write_deck`**: `parseDeck (writeDeck d) = d` for every deck that `Conforms` — by
 induction over the keyword list; each keyword conforms relative to the keywords before it as
@@ -311,19 +341,21 @@ keywords (`C19.code_keyword_end_token`: printed without their end token; not in 
 floating point tokens that do not read back (`C19.double_overflow`: `Conf`); and, as a limit
 of this theorem, keywords of unknown size and double-record keywords (covered at keyword level
 above). -/
-theorem parse_write_deck (cv : Conv) (fmt : Bytes → Bytes) (flush : Bool) (tbl : Table) (recog : Bytes → Bool)
+theorem parse_write_deck (cv : Conv) (fmt : Bytes → Bytes) (fl : List Vals → Bool) (tbl : Table) (recog : Bytes → Bool)
     (files : List (Bytes × Bytes) → Bytes → Option Bytes) (ks : List DK)
-    (h : Conforms cv fmt flush tbl recog [] ks) :
-    parseDeckText cv tbl recog files (ks.length + 2) (deckText fmt flush ks) = some (ks.map (DK.result fmt)) :=
-  OpmVerif.Deck.parse_write_deck cv fmt flush tbl recog files ks h
+    (h : Conforms cv fmt fl tbl recog [] ks) :
+    parseDeckText cv tbl recog files (ks.length + 2) (deckText fmt fl ks) = some (ks.map (DK.result fmt)) :=
+  OpmVerif.Deck.parse_write_deck cv fmt fl tbl recog files ks h
 
 /-- the text `parse_write_deck` is about is what the literal mirror of `DeckOutput` /
 `Deck::write` writes (the mirror is compared byte for byte with the real
 `operator<<(std::ostream&, const Deck&)` in the correspondence), TITLE included. -/
-theorem deck_writer_mirror_writes_deckText (fmt : Bytes → Bytes) (ks : List KwOut) (st : OutState) (hdc : st.dc = 0)
-    (htitle : ∀ k ∈ ks, k.name = titleName → ∀ p ∈ (k.records.headD []).flatten, p.2 = .deck) :
-    writeDeckM fmt true st ks = deckText fmt true (toDKs fmt st ks) :=
-  writeDeckM_eq_deckText fmt ks st hdc htitle
+theorem deck_writer_mirror_writes_deckText (fmt : Bytes → Bytes) (shape : Nat) (hs : 1 ≤ shape) (ks : List KwOut)
+    (st : OutState) (hdc : st.dc = 0)
+    (htitle : ∀ k ∈ ks, k.name = titleName → ∀ p ∈ (k.records.headD []).flatten, p.2 = .deck)
+    (hmulti : ∀ k ∈ ks, k.name ≠ titleName → ∀ r ∈ k.records, shape ≤ 1 ∨ MultiOnlyLast r) :
+    writeDeckM fmt shape st ks = deckText fmt (flushOf shape) (toDKs fmt shape st ks) :=
+  writeDeckM_eq_deckText fmt shape hs ks st hdc htitle hmulti
 
 /-! non-vacuity: one keyword of each class -/
 
@@ -344,14 +376,14 @@ example : mkKw .fixed false none 2 = some (fixedKw 2) ∧ mkKw .tableCollection 
 /-- a data keyword (one record, size ALL) with ten values: two lines after the split. -/
 def dataRecord : List Vals := [([1, 2, 3, 4, 5, 6, 7, 8, 9, 10] : List Int).map fun i => (Val.int i, Status.deck)]
 
-example : bodyText idFmt true true false [dataRecord] = b " 1 2 3 4 5 6 7\n 8 9 10 /\n" := by decide +kernel
-example : (chunksOf true (emitToks idFmt true false 0 dataRecord.flatten)).map (·.length) = [7, 3] := by decide +kernel
-example : RunOk (fixedKw 1) ([dataRecord].map fun r => emitToks idFmt true false 0 r.flatten) false :=
+example : bodyText idFmt (flushOf 2) true false [dataRecord] = b " 1 2 3 4 5 6 7\n 8 9 10 /\n" := by decide +kernel
+example : (chunksOf true (emitToks idFmt (flushOf 2 dataRecord) false 0 dataRecord.flatten)).map (·.length) = [7, 3] := by decide +kernel
+example : RunOk (fixedKw 1) ([dataRecord].map fun r => emitToks idFmt (flushOf 2 r) false 0 r.flatten) false :=
   runOk_fixed _ _ 1 ⟨rfl, rfl, rfl⟩ (by decide) (by decide +kernel) (by decide)
-example : BodyOk (fun _ => false) false true false ([dataRecord].map fun r => emitToks idFmt true false 0 r.flatten) :=
+example : BodyOk (fun _ => false) false true false ([dataRecord].map fun r => emitToks idFmt (flushOf 2 r) false 0 r.flatten) :=
   bodyOk_of_B (by decide +kernel)
 example : parseKeywordText OpmVerif.DeckIO.conv (fun _ => false) (fixedKw 1) [[⟨.int, true, none⟩]] false false
-    (bodyText idFmt true true false [dataRecord]) = some ([dataRecord], []) := by decide +kernel
+    (bodyText idFmt (flushOf 2) true false [dataRecord]) = some ([dataRecord], []) := by decide +kernel
 
 /-- a table collection with two tables: the record without tokens is the separator. -/
 def pvtoSchema : List (List Item) := [[⟨.int, false, none⟩, ⟨.int, true, some (.int 0)⟩]]
@@ -360,41 +392,41 @@ def pvtoRecords : List (List Vals) :=
    [[(.dummy, .empty)], []],
    [[(.int 3, .deck)], [(.int 40, .deck)]]]
 
-example : bodyText idFmt true false true pvtoRecords = b " 1 10 20 /\n 2 30 /\n /\n 3 40 /\n/\n" := by decide +kernel
-example : RunOk (tableKw 2) (pvtoRecords.map fun r => emitToks idFmt true false 0 r.flatten) true :=
+example : bodyText idFmt (flushOf 2) false true pvtoRecords = b " 1 10 20 /\n 2 30 /\n /\n 3 40 /\n/\n" := by decide +kernel
+example : RunOk (tableKw 2) (pvtoRecords.map fun r => emitToks idFmt (flushOf 2 r) false 0 r.flatten) true :=
   runOk_table _ _ ⟨rfl, rfl, rfl⟩ (by decide +kernel)
-example : BodyOk (fun _ => false) false false true (pvtoRecords.map fun r => emitToks idFmt true false 0 r.flatten) :=
+example : BodyOk (fun _ => false) false false true (pvtoRecords.map fun r => emitToks idFmt (flushOf 2 r) false 0 r.flatten) :=
   bodyOk_of_B (by decide +kernel)
 example : parseKeywordText OpmVerif.DeckIO.conv (fun _ => false) (tableKw 2) pvtoSchema false false
-    (bodyText idFmt true false true pvtoRecords) = some (pvtoRecords, []) := by decide +kernel
+    (bodyText idFmt (flushOf 2) false true pvtoRecords) = some (pvtoRecords, []) := by decide +kernel
 
 /-- a raw-string keyword (UDQ-like): tokens may hold slashes, the last slash ends the record. -/
 def udqRecords : List (List Vals) :=
   [[[(.raw (b "DEFINE"), .deck)], [(.raw (b "WUX"), .deck)], [(.raw (b "WOPR/2"), .deck), (.raw (b "/"), .deck), (.raw (b "'W 1'"), .deck)]]]
 
-example : bodyText idFmt true false true udqRecords = b " DEFINE WUX WOPR/2 / 'W 1' /\n/\n" := by decide +kernel
-example : RunOk rawSlashKw (udqRecords.map fun r => emitToks idFmt true false 0 r.flatten) true :=
+example : bodyText idFmt (flushOf 2) false true udqRecords = b " DEFINE WUX WOPR/2 / 'W 1' /\n/\n" := by decide +kernel
+example : RunOk rawSlashKw (udqRecords.map fun r => emitToks idFmt (flushOf 2 r) false 0 r.flatten) true :=
   runOk_slash _ _ ⟨rfl, rfl, rfl⟩ (by decide +kernel)
-example : BodyOk (fun _ => false) true false true (udqRecords.map fun r => emitToks idFmt true false 0 r.flatten) :=
+example : BodyOk (fun _ => false) true false true (udqRecords.map fun r => emitToks idFmt (flushOf 2 r) false 0 r.flatten) :=
   bodyOk_of_B (by decide +kernel)
 example : parseKeywordText OpmVerif.DeckIO.conv (fun _ => false) rawSlashKw
     [[⟨.rawString, false, none⟩, ⟨.rawString, false, none⟩, ⟨.rawString, true, none⟩]] false false
-    (bodyText idFmt true false true udqRecords) = some (udqRecords, []) := by decide +kernel
+    (bodyText idFmt (flushOf 2) false true udqRecords) = some (udqRecords, []) := by decide +kernel
 
 /-- a double-record keyword: two blocks, each closed by the empty record. -/
 def dblRecords : List (List Vals) := [[[(.int 1, .deck)]], [[(.int 2, .deck)]], [], [[(.int 3, .deck)]], []]
 
-example : bodyText idFmt true false true dblRecords = b " 1 /\n 2 /\n /\n 3 /\n /\n/\n" := by decide +kernel
-example : RunOk dblKw (dblRecords.map fun r => emitToks idFmt true false 0 r.flatten) true :=
+example : bodyText idFmt (flushOf 2) false true dblRecords = b " 1 /\n 2 /\n /\n 3 /\n /\n/\n" := by decide +kernel
+example : RunOk dblKw (dblRecords.map fun r => emitToks idFmt (flushOf 2 r) false 0 r.flatten) true :=
   runOk_dbl _ _ ⟨rfl, rfl, rfl⟩ (by decide +kernel)
 example : parseKeywordText OpmVerif.DeckIO.conv (fun _ => false) dblKw [[⟨.int, false, none⟩], [⟨.int, false, none⟩]] false true
-    (bodyText idFmt true false true dblRecords) = some (dblRecords, []) := by decide +kernel
+    (bodyText idFmt (flushOf 2) false true dblRecords) = some (dblRecords, []) := by decide +kernel
 
 /-- a fixed-size keyword without a smaller minimum size is not ended by a bare `/`: a record
 of defaults only comes back (EQUIL-like, two records, the first one all defaults). -/
 example : RunOk (fixedKw 2) [[], [b "1"]] false := runOk_fixed_min _ _ 2 ⟨rfl, rfl, rfl⟩ rfl (by decide) (by decide)
 example : parseKeywordText OpmVerif.DeckIO.conv (fun _ => false) (fixedKw 2) [[⟨.int, false, some (.int 7)⟩]] false false
-    (bodyText idFmt true false false [[[(.int 7, .dflt)]], [[(.int 1, .deck)]]]) =
+    (bodyText idFmt (flushOf 2) false false [[[(.int 7, .dflt)]], [[(.int 1, .deck)]]]) =
       some ([[[(.int 7, .dflt)]], [[(.int 1, .deck)]]], []) := by decide +kernel
 
 /-- a small deck: TABDIMS-like sizes, a table collection sized by it, a data keyword, TITLE. -/
@@ -412,12 +444,12 @@ def demoDeck : List DK :=
    .kw ⟨b "PVTO", false, true, pvtoRecords⟩,
    .kw ⟨b "PORO", true, false, [dataRecord]⟩]
 
-example : deckText idFmt true demoDeck =
+example : deckText idFmt (flushOf 2) demoDeck =
     b "OIL\nTABDIMS\n 1* 2 /\nTITLE\n  'My' 'deck 1'\nPVTO\n 1 10 20 /\n 2 30 /\n /\n 3 40 /\n/\nPORO\n 1 2 3 4 5 6 7\n 8 9 10 /\n" := by
   decide +kernel
 
 example : parseDeckText OpmVerif.DeckIO.conv deckTable (fun n => (lookup deckTable n).isSome) (fun _ _ => none) 7
-    (deckText idFmt true demoDeck) = some (demoDeck.map (DK.result idFmt)) := by decide +kernel
+    (deckText idFmt (flushOf 2) demoDeck) = some (demoDeck.map (DK.result idFmt)) := by decide +kernel
 
 end second_round
 
